@@ -179,8 +179,12 @@ def gen_object(rng, n_enums, big=False):
     r = rng.random()
     if r < 0.45:
         return gen_table(rng, n_enums, big)
+    if r < 0.52:
+        return {"kind": "pp", "value": rng.choice(PP_VALUES), "fmt_json": rng.random() < 0.4,
+                "module_pp": rng.random() < 0.3}
     if r < 0.57:
-        return {"kind": "pp", "value": rng.choice(PP_VALUES), "fmt_json": rng.random() < 0.4}
+        return {"kind": rng.choice(["userbox", "usernote"]),
+                "items": [rng.choice(["a", "bc", 1, 2.5, "", "ü", True, None, "long " * 5]) for _ in range(rng.randint(0, 4))]}
     if r < 0.60:
         return {"kind": "ppwrap", "value": rng.choice(PP_VALUES)}
     if r < 0.72:
@@ -210,6 +214,8 @@ PALETTES_FOR = {
     "recfmt": [None, None, {"cls": "altrec"}],
     "hdoc": [None],
     "ppwrap": [None],
+    "userbox": [None],
+    "usernote": [None],
 }
 GLOBAL_ONLY = ("hdoc", "ppwrap")
 POKES = ["len", "add", "slice", "fixed", "fixed2", "fmt", "getch", "iadd", "eq"]
@@ -431,7 +437,7 @@ class World:
                       "conf_global": 0, "conf_add": 0, "touch": 0, "obj_new": 0, "after_other_conf": 0,
                       "after_drop": 0, "nocolor_checked": 0, "lines_vs_whole": 0, "plain_checked": 0,
                       "ref_errors_agreed": 0}
-        for k in ("table", "pp", "recfmt", "ghist", "hdoc", "ppwrap"):
+        for k in ("table", "pp", "recfmt", "ghist", "hdoc", "ppwrap", "userbox", "usernote"):
             self.stats["kind." + k] = 0
 
     def sut(self, what, fn, *a, **kw):
